@@ -13,11 +13,27 @@ Observation: `d:<t1>,<t2>,...,<tN>` in request order (concurrent) / helper dispa
     r<tag>   forwarded to .../r<tag>  (rw)          a<tag> allowed with log=<tag> / x<tag> denied with log=<tag> (acl)
     e<code>  answered locally with <code> and no tag
 """
-import os, re, socket, threading, time, select
+import os, re, socket, threading, time, select, subprocess, sys
 from e2e import rig
 
 RELAY = os.path.join(os.path.dirname(os.path.dirname(os.path.abspath(__file__))), "e2e", "helpers", "c47_relay.py")
+RELAY_C = os.path.join(os.path.dirname(RELAY), "c47_relay.c")
 CONC = 60
+
+
+def build_relay(stage):
+    """the stub as a command line for squid.conf: the C relay compiled into the stage's work dir (python relay as a fallback)"""
+    exe = os.path.join(stage.work, "c47_relay")
+    os.makedirs(stage.work, exist_ok=True)
+    if not os.path.exists(exe):
+        r = subprocess.run(["gcc", "-O1", "-o", exe + ".tmp%d" % os.getpid(), RELAY_C], capture_output=True, text=True)
+        if r.returncode == 0:
+            os.chmod(exe + ".tmp%d" % os.getpid(), 0o755)
+            os.replace(exe + ".tmp%d" % os.getpid(), exe)
+    if os.path.exists(exe):
+        return exe
+    py = "/usr/bin/python3" if os.path.exists("/usr/bin/python3") else sys.executable
+    return "%s -S -E %s" % (py, RELAY)
 
 
 class Brain:
@@ -155,8 +171,8 @@ def new_runid():
 class Instance:
     """one squid + one helper of the given kind and concurrency"""
 
-    def __init__(self, stage, origin, kind, conc):
-        self.stage, self.origin, self.kind, self.conc = stage, origin, kind, conc
+    def __init__(self, stage, origin, kind, conc, relay=RELAY):
+        self.stage, self.origin, self.kind, self.conc, self.relay = stage, origin, kind, conc, relay
         self.lock = threading.Lock()
         self.squid = None
         self.brain = None
@@ -164,6 +180,14 @@ class Instance:
         self.start()
 
     def start(self):
+        t0 = time.time()
+        try:
+            self._start()
+        finally:
+            if os.environ.get("C47_TIMES"):
+                print("  start %.2fs" % (time.time() - t0), flush=True)
+
+    def _start(self):
         if self.squid is not None:
             self.stop()
         self.k += 1
@@ -172,16 +196,47 @@ class Instance:
         self.brain = Brain(sock)
         if self.kind == "rw":
             conf = ("url_rewrite_program %s %s rw\nurl_rewrite_children 1 startup=0 idle=1 concurrency=%d queue-size=200\n"
-                    "cache deny all\n" % (RELAY, sock, self.conc))
+                    "url_rewrite_access deny manager\ncache deny all\n" % (self.relay, sock, self.conc))
             access = "http_access allow all\n"
             logformat = "squid"
         else:
             conf = ("external_acl_type ext ttl=0 negative_ttl=0 cache=0 children-max=1 children-startup=0 children-idle=1 concurrency=%d queue-size=200 %%URI %s %s acl\n"
-                    "acl e external ext\ncache deny all\nlogformat c47 %%ru %%>Hs %%ea\naccess_log stdio:{dir}/c47.log c47\n" % (self.conc, RELAY, sock))
-            access = "http_access allow e\nhttp_access deny all\n"
+                    "acl e external ext\ncache deny all\nlogformat c47 %%ru %%>Hs %%ea\naccess_log stdio:{dir}/c47.log c47\n" % (self.conc, self.relay, sock))
+            access = "http_access allow manager\nhttp_access allow e\nhttp_access deny all\n"
             logformat = "squid"
-        self.squid = rig.Squid(self.stage, conf=conf, access=access, logformat=logformat).start()
+        conf += "mime_table /dev/null\n"     # no icons to load: the instance starts several times faster
+        for attempt in range(5):
+            try:
+                self.squid = rig.Squid(self.stage, conf=conf, access=access, logformat=logformat).start()
+                break
+            except RuntimeError:       # e.g. the free port found a moment ago was taken meanwhile
+                if attempt == 4:
+                    raise
         self.last = 0     # last channel id used on the current helper session
+        if not hasattr(self, "rtt"):
+            self.rtt = 0.05   # recent client->squid->helper->origin->client round trip: every wait below scales with it
+        self.calibrate()
+
+    def calibrate(self):
+        """one plain transaction through the helper: measures the round trip the waits are scaled with"""
+        try:
+            t0 = time.time()
+            c, url = self.client("cal%d" % self.k, "x")
+            if self.brain.wait(lambda: self.brain.connected() and any(url.encode() in l for l in self.brain.lines), 20.0):
+                l = [x for x in self.brain.lines if url.encode() in x][0]
+                i = self.line_id(l)
+                self.brain.write((b"%d ERR\n" % i) if self.conc and i is not None else b"ERR\n")
+                if self.conc and i is not None:
+                    self.last = max(self.last, i)
+                if self.finish(c, 20.0) is not None:
+                    self.rtt = max(self.rtt, time.time() - t0)
+            c.close()
+        except OSError:
+            pass
+
+    def patience(self):
+        """how long to wait for something that normally takes one round trip (grows with the load of the machine)"""
+        return max(0.4, 12 * self.rtt) / rig.VERIF_SLOW
 
     def stop(self):
         try:
@@ -189,7 +244,7 @@ class Instance:
         except Exception:
             pass
         try:
-            self.squid.stop()
+            self.squid.stop(kill=True)
         except Exception:
             pass
         self.squid = None
@@ -245,17 +300,43 @@ class Instance:
             self.last = max([i for i in ids if i is not None] + [self.last + k])
         return True
 
+    def resync(self, run, ids):
+        """bring a concurrent session back to 'between replies, nothing waiting' without restarting anything: end the current
+        line, answer every channel of the scenario once more (whole lines; unknown channels are dropped by Squid), then prove
+        with a fence request that a reply reaches its request again"""
+        if not self.brain.connected() or self.brain.write(b"\n") != 0:
+            return False
+        for k in range(0, len(ids), 30):
+            if self.brain.write(b"".join(b"%d ERR\n" % i for i in ids[k:k + 30])) != 0:
+                return False
+        lf = self.brain.nlines()
+        fc, furl = self.client(run, "fence2")
+        ok = False
+        if self.brain.wait(lambda: any(furl.encode() in l for l in self.brain.lines[lf:]) or self.brain.eof, self.patience()):
+            fl = [l for l in self.brain.lines[lf:] if furl.encode() in l]
+            if fl and self.line_id(fl[0]) is not None:
+                fid = self.line_id(fl[0])
+                self.brain.write(b"%d ERR\n" % fid)
+                self.last = max(self.last, fid)
+                ok = self.finish(fc, self.patience()) is not None
+        fc.close()
+        return ok
+
     # ---- a scenario ----------------------------------------------------------------------------------------------
     def run(self, conc, base, n, reads):
         with self.lock:
             for attempt in range(3):
+                t0 = time.time()
                 out = self._run(conc, base, n, reads)
+                if os.environ.get("C47_TIMES"):
+                    print("  inner %.2fs %s" % (time.time() - t0, out[:40]), flush=True)
                 if not out.startswith("retry"):
                     return out
                 self.start()
             return "abort:" + out
 
     def _run(self, conc, base, n, reads):
+        t_pre = time.time()
         if not self.squid.alive():
             self.start()
         run = new_runid()
@@ -274,6 +355,9 @@ class Instance:
                 return "retry:burn"
             if self.last != base:
                 return "retry:base %d != %d" % (self.last, base)
+        T = [time.time()]
+        if os.environ.get("C47_TIMES"):
+            print("  pre %.2f base=%d" % (T[0] - t_pre, base), flush=True)
         # submit
         l0 = self.brain.nlines() if self.brain.connected() else 0
         clients = []
@@ -288,35 +372,43 @@ class Instance:
             else:
                 time.sleep(0.004 * rig.VERIF_SLOW)
         self.last = base + n
+        T.append(time.time())
         # the scripted reads
         eoms = 0
-        anomalous = False
+        anomalous = write_failed = False
         for r in reads:
             if not conc:
                 # a non-concurrent helper answers after it has been asked (the first wait includes starting the helper process)
                 self.brain.wait(lambda: self.brain.connected() and self.brain.nlines() - l0 > eoms, 5.0 if eoms == 0 else 0.5)
             left = self.brain.write(r)
             if left is None or left != 0:
-                anomalous = True
+                anomalous = write_failed = True
                 break
             eoms += r.count(b"\n")
+        T.append(time.time())
         # fence: one more request answered in one write; when it completes, every earlier delivery has been acted upon
         fence_ok = False
-        if not anomalous and self.brain.connected():
+        midline = bool(reads) and not reads[-1].endswith(b"\n")
+        # (a stream that stops in the middle of a line gets no fence: the fence's reply would become part of that line)
+        if not anomalous and self.brain.connected() and not midline:
             lf = self.brain.nlines()
+            t_f = time.time()
             fc, furl = self.client(run, "fence")
-            if self.brain.wait(lambda: any(furl.encode() in l for l in self.brain.lines[lf:]) or self.brain.eof, 0.3):
+            if self.brain.wait(lambda: any(furl.encode() in l for l in self.brain.lines[lf:]) or self.brain.eof, self.patience()):
                 fl = [l for l in self.brain.lines[lf:] if furl.encode() in l]
                 if fl:
                     fid = self.line_id(fl[0])
                     self.brain.write((b"%d ERR\n" % fid) if conc else b"ERR\n")
                     if conc:
                         self.last = max(self.last, fid)
-                    fence_ok = self.finish(fc, 0.4) is not None
+                    fence_ok = self.finish(fc, self.patience()) is not None
+                    if fence_ok:
+                        self.rtt = max(time.time() - t_f, 0.8 * self.rtt)
             fc.close()
+        T.append(time.time())
         # collect
         results = []
-        grace = 0.4 if fence_ok else 0.25
+        grace = self.patience() * (0.6 if fence_ok else 1.0)
         t_end = time.time() + grace * rig.VERIF_SLOW
         for c, url in clients:
             resp = self.finish(c, max(0.0, t_end - time.time()) / rig.VERIF_SLOW)
@@ -372,12 +464,17 @@ class Instance:
                         order.append(j)
             order += [j for j in range(n) if j not in order]
             toks = [toks[j] for j in order]
+        T.append(time.time())
+        if os.environ.get("C47_TIMES"):
+            print("  phases submit/reads/fence/collect " + " ".join("%.2f" % (b - a) for a, b in zip(T, T[1:])) + " fence_ok=%s wf=%s" % (fence_ok, write_failed), flush=True)
         if not self.squid.alive():
             out = "abort:squid-died " + ";".join(self.squid.problems()[:2])
             self.start()
             return out.replace(" ", "_")
-        if anomalous or not fence_ok:
-            self.start()      # requests may be left waiting inside Squid: the next scenario gets a clean Squid
+        if write_failed or not fence_ok:
+            # the session may be in the middle of a reply, and requests may be left waiting inside Squid
+            if not (conc and not write_failed and not midline and self.resync(run, list(range(base + 1, self.last + 2)))):
+                self.start()
         return "d:" + ",".join(toks)
 
 
@@ -393,6 +490,7 @@ class E2E:
         self.origin = rig.Origin()
         self.origin.handlers = _Default(origin_handler)
         self.per_key = per_key
+        self.relay = build_relay(stage)
         self.pool = {}
         self.plock = threading.Lock()
         self.rr = {}
@@ -404,7 +502,7 @@ class E2E:
             i = self.rr.get(key, 0)
             self.rr[key] = i + 1
             if len(lst) < self.per_key:
-                inst = Instance(self.stage, self.origin, kind, conc)
+                inst = Instance(self.stage, self.origin, kind, conc, self.relay)
                 lst.append(inst)
                 return inst
             return lst[i % len(lst)]
@@ -414,7 +512,7 @@ class E2E:
             impl, kind, c, b, n, rs = line.split(" ")
             conc, base, n = int(c[2:]), int(b[2:]), int(n[2:])
             reads = [] if rs == "-" else [bytes.fromhex(x) for x in rs.split(",")]
-            if kind not in ("rw", "acl") or not c.startswith("c=") or n > 40 or base > 2000:
+            if kind not in ("rw", "acl") or not c.startswith("c=") or n > 40 or base > 100000:
                 raise ValueError
         except ValueError:
             return "bad-op"
